@@ -1187,6 +1187,16 @@ def run_case(ctx):
             width = rng.randint(1, 8)
             sstyle, shots = G.rand_shots(rng, width)
             tstyle, terms = G.rand_terms(rng, width)
+        if cls == "expect" and ctx.index % 1500 == 1499:
+            # a record with MORE THAN 2**14 DISTINCT outcomes (16 bits, 17 000 - 20 000 different bitstrings, some twice):
+            # whatever is processed in blocks of distinct outcomes has its boundary below this
+            width = 16
+            codes = rng.sample(range(2 ** 16), rng.choice([17000, 20000]))
+            codes += rng.sample(codes, 500)
+            shots = [tuple((c >> (15 - q)) & 1 for q in range(16)) for c in codes]
+            sstyle = "many-distinct"
+            terms = [((0,), 1.5), ((3, 15), -2.0), ((), 2.5)]
+            tstyle = "fixed3"
         bessel = rng.random() < 0.5
         distinct = len(set(shots))
         nontrivial = distinct >= 2 and len(terms) >= 2 and any(qs for qs, _ in terms)
